@@ -1123,15 +1123,23 @@ func round10Specific(c *core.Ctx, rule string) []core.Obligation {
 		}
 	}
 
-	// C10-r10m1: the centre cap of Rect.CapBound is grown to both diagonal corners.
+	// C10-r10m1 and D48: the centre cap of Rect.CapBound is grown to all four vertices (Vertex(k) in a loop over k, or
+	// four separate calls; Lo() and Hi() count as two of them), and the pole cap's angle is padded by a factor > 1.
 	if rule == "R-ACCUM" {
 		fn := c.Fn("s2", "Rect", "CapBound")
-		construct := "Rect.CapBound:center-cap-reaches-both-corners"
+		construct := "Rect.CapBound:center-cap-reaches-all-vertices"
 		if fn == nil {
 			ob(rule, construct, nil, token.NoPos, false, "", "unresolved anchor")
 		} else {
-			lo, hi := false, false
+			loops := loopsOf(fn)
+			corners := 0
 			for _, add := range calls(fn, "AddPoint") {
+				inLoop := false
+				for _, body := range loops {
+					if body[add.Block()] {
+						inLoop = true
+					}
+				}
 				var walk func(v ssa.Value, d int)
 				walk = func(v ssa.Value, d int) {
 					if d > 4 {
@@ -1139,10 +1147,14 @@ func round10Specific(c *core.Ctx, rule string) []core.Obligation {
 					}
 					if call, ok := v.(*ssa.Call); ok {
 						switch calleeName(call) {
-						case "Lo":
-							lo = true
-						case "Hi":
-							hi = true
+						case "Lo", "Hi":
+							corners++
+						case "Vertex":
+							if inLoop {
+								corners += 4
+							} else {
+								corners++
+							}
 						}
 						for _, a := range call.Call.Args {
 							walk(a, d+1)
@@ -1153,8 +1165,46 @@ func round10Specific(c *core.Ctx, rule string) []core.Obligation {
 					walk(a, 0)
 				}
 			}
-			ob(rule, construct, fn, token.NoPos, lo && hi, "the cap around the centre is extended to r.Lo() and to r.Hi()",
-				"the cap around the rectangle's centre is not extended to both r.Lo() and r.Hi(): for a rectangle that straddles the equator the corner pair on the far side of the equator from the centre is farther away than the other, and a cap grown to one corner leaves the other pair outside")
+			ob(rule, construct, fn, token.NoPos, corners >= 4, "the cap around the centre is extended to all four vertices of the rectangle",
+				fmt.Sprintf("the cap around the rectangle's centre is extended to %d of the four vertices only: the vertices it is not extended to are mathematically no farther than their mirror images but round differently (1-2 ulp outside), and for a rectangle that straddles the equator the pair on the far side of the equator is farther away", corners))
+			// the pole cap
+			construct = "Rect.CapBound:pole-cap-angle-padded"
+			padded := false
+			for _, mk := range calls(fn, "CapFromCenterAngle") {
+				var walk func(v ssa.Value, d int)
+				walk = func(v ssa.Value, d int) {
+					if d > 5 {
+						return
+					}
+					switch x := v.(type) {
+					case *ssa.BinOp:
+						if x.Op == token.MUL {
+							for _, o := range []ssa.Value{x.X, x.Y} {
+								if cv, ok := o.(*ssa.Const); ok && cv.Value != nil && cv.Value.Kind() == constant.Float {
+									if f, _ := constant.Float64Val(cv.Value); f > 1 && f < 1.001 {
+										padded = true
+									}
+								}
+							}
+						}
+						walk(x.X, d+1)
+						walk(x.Y, d+1)
+					case *ssa.Convert:
+						walk(x.X, d+1)
+					case *ssa.ChangeType:
+						walk(x.X, d+1)
+					case *ssa.Phi:
+						for _, e := range x.Edges {
+							walk(e, d+1)
+						}
+					}
+				}
+				if len(mk.Call.Args) == 2 {
+					walk(mk.Call.Args[1], 0)
+				}
+			}
+			ob(rule, construct, fn, token.NoPos, padded, "the pole cap's angle is multiplied by a constant slightly above 1",
+				"the pole cap is built from the exact angle pi/2 -+ lat: the subtraction and the Angle/ChordAngle conversion round, so the rectangle's own vertices on the far parallel can lie outside the cap (lat [0, pi/2], lng [pi, 0]: vertex (0,180) has chord^2 2, the cap 1.9999999999999996), and ConvexHullQuery's full-sphere test, which reads this cap's height, is missed")
 		}
 	}
 
@@ -1192,13 +1242,379 @@ func round10Specific(c *core.Ctx, rule string) []core.Obligation {
 				"a result is returned without the sign test against the sum of the four vertices: the stable method's own orientation rests on the computed signs of two projections, one of which can be wrong when a vertex lies within rounding error of the other edge's plane - Intersection then returns the antipode of the crossing")
 		}
 	}
+	// D45: xyzToFaceSiTi's "is a cell centre" test is exact in the sign of zero coordinates.
+	if rule == "R-WIRE" {
+		fn := c.Fn("s2", "", "xyzToFaceSiTi")
+		construct := "xyzToFaceSiTi:center-test-distinguishes-signed-zero"
+		if fn == nil {
+			ob(rule, construct, nil, token.NoPos, false, "", "unresolved anchor")
+		} else {
+			n := len(calls(fn, "Signbit")) + len(calls(fn, "Float64bits"))
+			ob(rule, construct, fn, token.NoPos, n >= 6, fmt.Sprintf("the comparison with the recomputed centre also compares sign bits / bit patterns (%d calls)", n),
+				"a vertex counts as a cell centre on `==` alone, which does not distinguish -0 from +0: the face centres are rebuilt with negated zeros, so (-1,0,0) is written by cell id and read back as (-1,-0,-0) - not bit-identical, and its longitude changes from +Pi to -Pi")
+		}
+		// D46: the CellUnion encoder enforces the decoder's limit
+		enc, dec := c.Fn("s2", "CellUnion", "encode"), c.Fn("s2", "CellUnion", "decode")
+		construct = "CellUnion.encode:enforces-the-decoder-limit"
+		if enc == nil || dec == nil {
+			ob(rule, construct, nil, token.NoPos, false, "", "unresolved anchor")
+		} else {
+			limits := func(fn *ssa.Function) map[int64]bool {
+				out := map[int64]bool{}
+				core.AllInstrs(fn, func(in ssa.Instruction) {
+					if bo, ok := in.(*ssa.BinOp); ok && (bo.Op == token.GTR || bo.Op == token.GEQ || bo.Op == token.LSS || bo.Op == token.LEQ) {
+						for _, o := range []ssa.Value{bo.X, bo.Y} {
+							if k, ok := core.ConstInt(o); ok && k >= 1000 {
+								out[k] = true
+							}
+						}
+					}
+				})
+				return out
+			}
+			dl, el := limits(dec), limits(enc)
+			okk := len(dl) > 0
+			for k := range dl {
+				if !el[k] {
+					okk = false
+				}
+			}
+			ob(rule, construct, enc, token.NoPos, okk, "the encoder compares the number of cells with the limit the decoder enforces",
+				"the decoder rejects more cells than a limit the encoder never looks at: a valid union above the limit is encoded without error into bytes that cannot be read back")
+		}
+	}
+
+	// D47: the zero Polygon answers RectBound with the empty rectangle.
+	if rule == "R-INIT" {
+		fn := c.Fn("s2", "Polygon", "RectBound")
+		construct := "Polygon.RectBound:zero-value-is-empty"
+		if fn == nil {
+			ob(rule, construct, nil, token.NoPos, false, "", "unresolved anchor")
+		} else {
+			guarded := len(calls(fn, "EmptyRect")) > 0
+			capb := c.Fn("s2", "Polygon", "CapBound")
+			direct := false
+			if capb != nil {
+				core.AllInstrs(capb, func(in ssa.Instruction) {
+					if fa, ok := in.(*ssa.FieldAddr); ok {
+						if fr, ok := core.AsFieldAddr(fa); ok && fr.Name == "bound" && len(calls(capb, "EmptyCap")) == 0 && len(calls(capb, "EmptyRect")) == 0 {
+							direct = true
+						}
+					}
+				})
+			}
+			ob(rule, construct, fn, token.NoPos, guarded && !direct, "RectBound answers EmptyRect() for the zero value and CapBound does not read the bound field past it",
+				"the zero Polygon is documented to be the empty polygon, but RectBound / CapBound hand out its zero bound field - the single point (0, 0) - so the bound is not empty, a coverer covers a cell for an empty region, and the value changes its answers after an Encode/Decode round trip")
+		}
+	}
+
+	// D49: the early exit of updateEdgePairMinDistance covers a negative limit.
+	if rule == "R-ERRMODEL" {
+		fn := c.Fn("s2", "", "updateEdgePairMinDistance")
+		construct := "updateEdgePairMinDistance:nothing-beats-a-non-positive-limit"
+		if fn == nil || len(fn.Params) < 5 {
+			ob(rule, construct, nil, token.NoPos, false, "", "unresolved anchor")
+		} else {
+			good, found := false, false
+			if iff, ok := fn.Blocks[0].Instrs[len(fn.Blocks[0].Instrs)-1].(*ssa.If); ok {
+				if bo, ok := iff.Cond.(*ssa.BinOp); ok && bo.X == fn.Params[4] {
+					if k, ok := bo.Y.(*ssa.Const); ok && k.Value != nil && constant.Sign(constant.ToFloat(k.Value)) == 0 {
+						found = true
+						good = bo.Op == token.LEQ
+					}
+				}
+			}
+			ob(rule, construct, fn, token.NoPos, !found || good, "the first test is minDist <= 0 (or there is no such shortcut)",
+				"the shortcut 'the current minimum cannot be improved' tests minDist == 0 only: with NegativeChordAngle as the limit two crossing edges are reported as an improvement to 0, so the threshold form IsDistanceLess(target, NegativeChordAngle) answers true although no distance is below a negative limit")
+		}
+	}
+
+	// D50: stableSign declines when its error bound underflowed.
+	if rule == "R-STAGES" {
+		fn := c.Fn("s2", "", "stableSign")
+		construct := "stableSign:declines-when-the-bound-underflows"
+		if fn == nil {
+			ob(rule, construct, nil, token.NoPos, false, "", "unresolved anchor")
+		} else {
+			good := false
+			for _, b := range fn.Blocks {
+				iff, ok := b.Instrs[len(b.Instrs)-1].(*ssa.If)
+				if !ok {
+					continue
+				}
+				bo, ok := iff.Cond.(*ssa.BinOp)
+				if !ok || (bo.Op != token.LSS && bo.Op != token.LEQ && bo.Op != token.GTR && bo.Op != token.GEQ) {
+					continue
+				}
+				for _, o := range []ssa.Value{bo.X, bo.Y} {
+					if cv, ok := o.(*ssa.Const); ok && cv.Value != nil && cv.Value.Kind() == constant.Float {
+						if f, _ := constant.Float64Val(cv.Value); f > 0 && f < 1e-100 {
+							good = true
+						}
+					}
+				}
+			}
+			ob(rule, construct, fn, token.NoPos, good, "the error bound (or the product it is computed from) is compared with a positive constant below 1e-100 before it is trusted",
+				"stableSign trusts maxErr = c * sqrt(|e1|^2 |e2|^2) without asking whether that product underflowed: for two points closer than about 1e-154 maxErr is 0 and det is rounding noise, so a definite but wrong orientation is returned and the exact stage is never consulted (RobustSign answered +1 for a triple whose exact determinant is negative)")
+		}
+	}
+
+	// ---- eleventh round: D51-D58 and the known findings D59-D62 ----
+	hasCall := func(fn *ssa.Function, names ...string) bool {
+		for _, n := range names {
+			if len(calls(fn, n)) > 0 {
+				return true
+			}
+		}
+		return false
+	}
+
+	// D51: the conservative limits end in Successor() (closest) / Predecessor() (furthest).
+	if rule == "R-POLARITY" {
+		for _, spec := range []struct{ recv, name, want string }{
+			{"EdgeQuery", "IsConservativeDistanceLessOrEqual", "Successor"}, {"EdgeQuery", "IsConservativeDistanceGreaterOrEqual", "Predecessor"},
+			{"queryOptions", "ClosestConservativeDistanceLimit", "Successor"}, {"queryOptions", "FurthestConservativeDistanceLimit", "Predecessor"},
+		} {
+			fn := c.Fn("s2", spec.recv, spec.name)
+			construct := "conservative-limit-inclusive:" + spec.name
+			if fn == nil {
+				ob(rule, construct, nil, token.NoPos, false, "", "unresolved anchor")
+				continue
+			}
+			ob(rule, construct, fn, token.NoPos, hasCall(fn, spec.want), "the expanded limit is passed through "+spec.want+"()",
+				"the limit is expanded by the distance error but not passed through "+spec.want+"(): the search compares strictly, so a distance exactly at the (clamped) limit is rejected although the documentation says 'or equal' - with one indexed point and its antipode as target the distance is 4 and IsConservativeDistanceLessOrEqual(target, Straight) is false")
+		}
+	}
+
+	// D52: Polygon.Contains reads its argument's bound through RectBound().
+	if rule == "R-INIT" {
+		fn := c.Fn("s2", "Polygon", "Contains")
+		construct := "Polygon.Contains:argument-bound-through-RectBound"
+		if fn == nil || len(fn.Params) < 2 {
+			ob(rule, construct, nil, token.NoPos, false, "", "unresolved anchor")
+		} else {
+			direct := false
+			core.AllInstrs(fn, func(in ssa.Instruction) {
+				if fa, ok := in.(*ssa.FieldAddr); ok && fa.X == fn.Params[1] {
+					if fr, ok := core.AsFieldAddr(fa); ok && fr.Name == "bound" {
+						direct = true
+					}
+				}
+			})
+			ob(rule, construct, fn, token.NoPos, !direct, "the argument's bound field is not read directly",
+				"the bounds check reads the argument's bound FIELD: for the zero Polygon (the documented empty polygon) that is the zero Rect, the point (0, 0), so A.Contains(&Polygon{}) is false for every A whose bound does not cover that point")
+		}
+	}
+
+	// D53 / D54: the coverer.
+	if rule == "R-PADDING" {
+		fn := c.Fn("s2", "coverer", "replaceCellsWithAncestor")
+		construct := "coverer.replaceCellsWithAncestor:lower-bound-includes-range-min"
+		if fn == nil {
+			ob(rule, construct, nil, token.NoPos, false, "", "unresolved anchor")
+		} else {
+			found, good := false, true
+			for _, anon := range fn.AnonFuncs {
+				core.AllInstrs(anon, func(in ssa.Instruction) {
+					bo, ok := in.(*ssa.BinOp)
+					if !ok {
+						return
+					}
+					for _, side := range []ssa.Value{bo.X, bo.Y} {
+						if call, ok := side.(*ssa.Call); ok && calleeName(call) == "RangeMin" {
+							found = true
+							op := bo.Op
+							if side == bo.X {
+								op = map[token.Token]token.Token{token.LSS: token.GTR, token.GTR: token.LSS, token.LEQ: token.GEQ, token.GEQ: token.LEQ}[op]
+							}
+							if op != token.GEQ {
+								good = false
+							}
+						}
+					}
+				})
+			}
+			ob(rule, construct, fn, token.NoPos, found && good, "the first cell to replace is the first one >= id.RangeMin()",
+				"the search for the first cell to replace is `covering[i] > id.RangeMin()`: a leaf cell equal to RangeMin() stays in front of its new ancestor, the covering never becomes canonical and normalizeCovering does not terminate")
+		}
+		fn = c.Fn("s2", "coverer", "normalizeCovering")
+		construct = "coverer.normalizeCovering:recomputes-with-own-parameters"
+		if fn == nil {
+			ob(rule, construct, nil, token.NoPos, false, "", "unresolved anchor")
+		} else {
+			ob(rule, construct, fn, token.NoPos, !hasCall(fn, "NewRegionCoverer"), "no default RegionCoverer is constructed here",
+				"the covering is recomputed with NewRegionCoverer(), i.e. with the default parameters: MinLevel, MaxLevel, LevelMod and MaxCells of the caller are ignored for large bounds")
+		}
+	}
+
+	// D55: PreciseVector.Vector scales before converting.
+	if rule == "R-ORDERINDEP" {
+		var fn *ssa.Function
+		for _, f := range c.GeoFuncs() {
+			if f.Name() == "Vector" && f.Signature.Recv() != nil && core.IsNamed(f.Signature.Recv().Type(), "r3", "PreciseVector") {
+				fn = f
+			}
+		}
+		construct := "PreciseVector.Vector:scaled-before-conversion"
+		if fn == nil {
+			ob(rule, construct, nil, token.NoPos, false, "", "unresolved anchor")
+		} else {
+			scaled := hasCall(fn, "SetMantExp", "MantExp")
+			for _, anon := range fn.AnonFuncs {
+				if hasCall(anon, "SetMantExp", "MantExp") {
+					scaled = true
+				}
+			}
+			ob(rule, construct, fn, token.NoPos, scaled, "the components are brought to a common exponent (MantExp / SetMantExp) before the conversion to float64",
+				"the components are converted to float64 one by one: when all of them are below the float64 range (the exact cross product for edges some 1e-100 long) they become zero, Normalize returns the zero vector, and intersectionExact takes that for 'exactly collinear' - Intersection returned its sentinel (10,10,10)")
+		}
+		// D56
+		fn = c.Fn("s2", "", "intersectionStableSorted")
+		construct = "intersectionStableSorted:declines-when-the-norm-underflows"
+		if fn == nil {
+			ob(rule, construct, nil, token.NoPos, false, "", "unresolved anchor")
+		} else {
+			good := false
+			core.AllInstrs(fn, func(in ssa.Instruction) {
+				bo, ok := in.(*ssa.BinOp)
+				if !ok || (bo.Op != token.LSS && bo.Op != token.LEQ && bo.Op != token.GTR && bo.Op != token.GEQ) {
+					return
+				}
+				for _, o := range []ssa.Value{bo.X, bo.Y} {
+					if cv, ok := o.(*ssa.Const); ok && cv.Value != nil && cv.Value.Kind() == constant.Float {
+						if f, _ := constant.Float64Val(cv.Value); f > 1e-320 && f < 1e-100 {
+							good = true
+						}
+					}
+				}
+			})
+			ob(rule, construct, fn, token.NoPos, good, "the squared length of the unnormalised result is compared with a normal-range constant before its square root is used",
+				"x is normalised with 1 / x.Norm() without asking whether x.Norm2() is a denormal: for edges about 1e-81 long the square root has lost most of its precision and Intersection returns a vector of norm 0.748 (a threshold of math.SmallestNonzeroFloat64, the smallest DENORMAL, does not help)")
+		}
+	}
+
+	// D57: Rect.decode validates; D58: vertex decoders check the length.
+	if rule == "R-DECSHAPE" {
+		fn := c.Fn("s2", "Rect", "decode")
+		construct := "Rect.decode:validated"
+		if fn == nil {
+			ob(rule, construct, nil, token.NoPos, false, "", "unresolved anchor")
+		} else {
+			ob(rule, construct, fn, token.NoPos, hasCall(fn, "IsValid"), "the decoded rectangle is tested with IsValid()",
+				"Rect.decode never asks IsValid() of what it read: lat [0, 0.5], lng [0, 10] is returned without error and HausdorffDistance of it panics")
+		}
+		for _, spec := range []struct{ recv, name string }{{"Loop", "decode"}, {"Polyline", "decode"}, {"", "decodePointsCompressed"}} {
+			fn := c.Fn("s2", spec.recv, spec.name)
+			construct := "unit-length-checked:" + spec.recv + "." + spec.name
+			if fn == nil {
+				ob(rule, construct, nil, token.NoPos, false, "", "unresolved anchor")
+				continue
+			}
+			good := hasCall(fn, "IsUnit", "Validate", "findValidationError")
+			for _, call := range calls(fn, "checkUnitLength") {
+				if f := core.StaticCallee(call); f != nil && hasCall(f, "IsUnit") {
+					good = true
+				}
+			}
+			ob(rule, construct, fn, token.NoPos, good, "decoded vertices are tested for unit length",
+				"vertices read from the wire are not tested for unit length: any finite vector is accepted, and the exact predicates overflow on coordinates like 1.7e308 (Inf - Inf = NaN, on which math/big panics) - Loop.Area, Polygon.Area and Polyline.Project panic on the decoded value")
+		}
+	}
+
+	// D59 (known finding): the tessellator's recursion has no depth bound.
+	if rule == "R-TOLERANCE" {
+		for _, name := range []string{"appendProjected", "appendUnprojected"} {
+			fn := c.Fn("s2", "EdgeTessellator", name)
+			construct := "tessellator:recursion-depth-bounded:" + name
+			if fn == nil {
+				ob(rule, construct, nil, token.NoPos, false, "", "unresolved anchor")
+				continue
+			}
+			// an integer parameter that is compared with a constant and passed on changed by one
+			bounded := false
+			for _, p := range fn.Params {
+				if b, ok := p.Type().Underlying().(*types.Basic); ok && b.Info()&types.IsInteger != 0 {
+					for _, ref := range *p.Referrers() {
+						if bo, ok := ref.(*ssa.BinOp); ok && (bo.Op == token.LSS || bo.Op == token.LEQ || bo.Op == token.GTR || bo.Op == token.GEQ || bo.Op == token.EQL) {
+							bounded = true
+						}
+					}
+				}
+			}
+			ob(rule, construct, fn, token.NoPos, bounded, "the recursion carries a depth counter that is compared with a limit",
+				"the recursion stops only when estimateMaxError falls below the tolerance: when the projection's own rounding error exceeds the tolerance (Mercator near the poles: 3.6e-13 rad at latitude 89.99) that never happens, and NewEdgeTessellator(NewMercatorProjection(180), 1e-13).AppendProjected((89.99,10),(89.9897,10.2)) recurses until the stack overflows, although the comment promises a depth below 45")
+		}
+	}
+
+	// D60 (known finding): Intersection's hemisphere test has no margin.
+	if rule == "R-ORDERINDEP" {
+		fn := c.Fn("s2", "", "Intersection")
+		construct := "Intersection:hemisphere-test-has-a-margin-or-exact-fallback"
+		if fn != nil {
+			bare := false
+			core.AllInstrs(fn, func(in ssa.Instruction) {
+				bo, ok := in.(*ssa.BinOp)
+				if !ok || (bo.Op != token.LSS && bo.Op != token.GTR && bo.Op != token.LEQ && bo.Op != token.GEQ) {
+					return
+				}
+				if call, ok := bo.X.(*ssa.Call); ok && calleeName(call) == "Dot" {
+					if cv, ok := bo.Y.(*ssa.Const); ok && cv.Value != nil && constant.Sign(constant.ToFloat(cv.Value)) == 0 {
+						bare = true
+					}
+				}
+			})
+			ob(rule, construct, fn, token.NoPos, !bare, "the sign that chooses between the result and its antipode is not a bare float comparison with zero",
+				"the result is negated when pt.Dot((a0+a1)+(b0+b1)) < 0, a bare float comparison: for two crossing edges each within about 3e-9 rad of 180 degrees the true value is about 1e-17, below the rounding error of the vertices, and Intersection returns the ANTIPODE of the crossing (8.3e-9 rad from both edges; bound 8.9e-16)")
+		}
+	}
+
+	// D61 (known finding): ContainsPoint of the antipode of the reference origin.
+	if rule == "R-PARITY" {
+		fn := c.Fn("s2", "Loop", "bruteForceContainsPoint")
+		construct := "Loop.bruteForceContainsPoint:antipode-of-origin"
+		if fn != nil {
+			guarded := false
+			core.AllInstrs(fn, func(in ssa.Instruction) {
+				if bo, ok := in.(*ssa.BinOp); ok && (bo.Op == token.EQL || bo.Op == token.NEQ) && core.IsNamed(bo.X.Type(), "s2", "Point") {
+					guarded = true
+				}
+			})
+			ob(rule, construct, fn, token.NoPos, guarded, "the query point is compared with a special point before the crossings from the origin are counted",
+				"crossings are counted along the segment from OriginPoint() to the query point; for the query point -OriginPoint() that segment is an antipodal 'edge' on which no crossing is ever reported, so every loop of at most 32 vertices that contains the origin reports that it contains (0.00999946643502502, -0.00259245426093241, -0.999946643502502), 3.1 rad away")
+		}
+	}
+
+	// D62 (known finding): Cap.Union does not round its result outward.
+	if rule == "R-SPECIAL" {
+		fn := c.Fn("s2", "Cap", "Union")
+		construct := "Cap.Union:result-rounded-outward"
+		if fn != nil {
+			ob(rule, construct, fn, token.NoPos, hasCall(fn, "Expanded", "AddCap", "Successor"), "the result is expanded after it has been computed",
+				"the radius 0.5*(d + r1 + r2) and the centre are each rounded and nothing is added: about 20% of random cap pairs give a union that does not contain one of its operands - CapFromPoint((1,0,0)).Union(CapFromPoint((-0.48545898576095153, 0.14011729706402276, -0.8629581196138203))) contains NEITHER point")
+		}
+	}
+
+	// C06-r11m2 / C04-r10m2: Polygon.iteratorContainsPoint tests each clipped edge on its own. The vertex-chain form of
+	// Loop.iteratorContainsPoint (RestartAt only on a gap in the edge ids, then EdgeOrVertexChainCrossing) is wrong for
+	// a polygon, whose edge ids run across loop boundaries: consecutive ids need not share a vertex.
+	if rule == "R-PARITY" {
+		fn := c.Fn("s2", "Polygon", "iteratorContainsPoint")
+		construct := "Polygon.iteratorContainsPoint:no-vertex-chain-across-loops"
+		if fn == nil {
+			ob(rule, construct, nil, token.NoPos, false, "", "unresolved anchor")
+		} else {
+			ob(rule, construct, fn, token.NoPos, !hasCall(fn, "EdgeOrVertexChainCrossing", "ChainCrossingSign", "RestartAt"), "each clipped edge is tested with both of its endpoints",
+				"the clipped edges are walked as a vertex chain (RestartAt / EdgeOrVertexChainCrossing): the edge ids of a polygon run across loop boundaries, so the first edge of a loop that shares an index cell with the last edge of the previous loop is replaced by a phantom edge between the two loops, and ContainsCell / IntersectsCell / ContainsPoint report the opposite of brute force")
+		}
+	}
+
 	return obs
 }
 
 // InstallLateObligations attaches the obligations of round10Specific to the rules they belong to. It is called once by
 // the driver after all rules have registered (the init order of the files in this package is alphabetical).
 func InstallLateObligations() {
-	for _, name := range []string{"R-SPECIAL", "R-AREASIGN", "R-WIRE", "R-PADDING", "R-MIRROR", "R-ORDERINDEP", "R-ROLES", "R-NORMUSE", "R-ACCUM"} {
+	for _, name := range []string{"R-SPECIAL", "R-AREASIGN", "R-WIRE", "R-PADDING", "R-MIRROR", "R-ORDERINDEP", "R-ROLES", "R-NORMUSE", "R-ACCUM", "R-INIT", "R-ERRMODEL", "R-STAGES", "R-POLARITY", "R-DECSHAPE", "R-TOLERANCE", "R-PARITY"} {
 		r := core.GetRule(name)
 		if r == nil || lateInstalled[name] {
 			continue
